@@ -22,6 +22,15 @@ def number_alts(text, integer_ok=True):
         m = ('%r' % val)
         alts += [m + '0', m + 'e0', m + '+0', m.replace('0.', '.', 1) if m.startswith('0.') or m.startswith('-0.') else m + 'E+0',
                  '%.4fd0' % val if abs(val * 10000 - round(val * 10000)) < 1e-9 else m + 'D0']
+    # exponents with two digits, with and without the letter: 2.7 = 27000000000.-10 = 2.7e+00 = 0.00000000027+10
+    if val == int(val) and abs(val) < 1000:
+        alts += ['%d0000000000.-10' % int(val), '%d.0e+00' % int(val)] if val else ['0.0-10', '0.0e+00']
+    else:
+        for digits in range(1, 7):
+            scaled = val * 10 ** (10 + digits)
+            if abs(scaled - round(scaled)) < 1e-6 * max(1.0, abs(scaled)) and abs(scaled) < 1e17:
+                alts += ['%d.-%d' % (round(scaled), 10 + digits), ('%r' % val) + 'e+00']
+                break
     if val > 0 and not text.startswith('+'):
         alts.append('+' + text)
     out = []
